@@ -98,3 +98,12 @@ package unary
 //@   overflow off
 //@   atcall resolveByteOffset sampleOffset == SpecSamplesBefore(approxDist)
 //@   modifies nothing
+
+//@ # Why that table is right. index.Domain.search brackets the number of stamps before a timestamp as
+//@ # [L, U] with U == L for a stored timestamp and U == L+1 otherwise, and in both cases U is that
+//@ # number. Distance combines the brackets of the two ends (plus whole domains in between, `mid`)
+//@ # as [eL - sU + mid, eU - sL + mid]. Picking a bound by the table gives exactly eU - sU + mid,
+//@ # the number of samples in [start, end), for every combination of exact and inexact ends.
+//@ lemma pickIsExactCount(sL int64, sU int64, eL int64, eU int64, mid int64)
+//@   requires 0 <= sL && (sU == sL || sU == sL + 1) && 0 <= eL && (eU == eL || eU == eL + 1) && 0 <= mid && sU <= eU + mid && eU <= 1152921504606846975 && mid <= 1152921504606846975
+//@   ensures SpecSamplesBefore(index.DistanceApproximation{Approximation: index.Between(eL - sU + mid, eU - sL + mid), StartExact: sU == sL, EndExact: eU == eL}) == eU - sU + mid
